@@ -140,7 +140,7 @@ Qed.
 Corollary from_sml_terminates src : from_sml src <> Err EOutOfFuel.
 Proof.
   unfold from_sml. pose proof (read_item_ok (S (length (sml_tokens src))) (sml_tokens src) ltac:(lia)) as H.
-  destruct (read_item _ _) as [[v rest]|e]; cbn [bind]; [discriminate|]. intro E. apply H. congruence.
+  destruct (read_item _ _) as [[v rest]|e]; cbn [bind snd fst]; [destruct rest; discriminate|]. intro E. apply H. congruence.
 Qed.
 
 (* a result is only ever returned for a text whose first item is closed: the reader stopped right after a '>' *)
